@@ -356,8 +356,16 @@ def _export_jobs(jobs, path, copytree):
     # Determine export path for each job.
     paths = {job.path: path_function(job) for job in jobs}
 
+    # The paths must denote distinct directories below the target: 'a', 'a/' and 'a/.' are the same.
+    normalized = [os.path.normpath(dst) for dst in paths.values()]
+    for dst in normalized:
+        if os.path.isabs(dst) or dst.split(os.path.sep)[0] == os.pardir:
+            raise RuntimeError(f"The path '{dst}' is not below the export target.")
+    if len(set(normalized)) < len(normalized) or (os.curdir in normalized and len(jobs) > 1):
+        raise RuntimeError("The path specification would result in duplicate paths.")
+
     # Check leaf/node consistency
-    _check_directory_structure_validity(paths.values())
+    _check_directory_structure_validity(normalized)
 
     for src, dst in paths.items():
         copytree(src, dst)
